@@ -293,6 +293,9 @@ func (g *TxGen) Gen(t *rapid.T) *TxDesc {
 	if strings.Contains(g.Profile, "gov") {
 		// governance-heavy: proposals get submitted and (mostly) voted through by the entities
 		kinds = append(kinds, "proposal", "proposal", "vote", "vote", "vote", "vote", "vote", "vote", "vote", "vote")
+		// delegators take part: they vote on open proposals with the stake they delegated, and leave (reclaim everything)
+		// while the proposal is still open
+		kinds = append(kinds, "delegVote", "delegVote", "delegVote", "delegVote", "delegVote", "delegVote", "reclaimAll", "reclaimAll", "escrow", "escrow", "proposal", "proposal", "proposal")
 	}
 	if strings.Contains(g.Profile, "vault") && g.W.Spec.WithVault {
 		kinds = append(kinds, "vaultCreate", "vaultAction", "vaultAction", "vaultAction", "vaultAction", "vaultAction", "vaultCancel", "withdraw", "withdraw", "withdraw", "withdraw", "fundVault", "fundVault")
@@ -454,6 +457,77 @@ func (g *TxGen) Gen(t *rapid.T) *TxDesc {
 			method, body = staking.MethodReclaimEscrow, &staking.ReclaimEscrow{Account: to, Shares: g.amount(t, &dels[to].Shares, "shares")}
 		} else {
 			method, body = staking.MethodReclaimEscrow, &staking.ReclaimEscrow{Account: g.pickAddr(t, "reclaimAny"), Shares: g.amount(t, bal, "shares")}
+		}
+	case "delegVote", "reclaimAll":
+		// A delegator takes part in a vote and leaves: a script whose next step is derived from the chain state. For an
+		// open proposal P the delegator D(P) (a user account, not an entity) first delegates most of its balance to a
+		// current validator entity E(P), then votes on P, then reclaims its WHOLE delegation while P is still open.
+		// (kind "reclaimAll" jumps to the last step for any signer that holds a delegation.)
+		props, _ := g.V.Gov.ActiveProposals(g.V.ctx)
+		var users []*Actor
+		for _, x := range g.Actors {
+			if x.Entity == nil && x.Node == nil {
+				users = append(users, x)
+			}
+		}
+		scripted := false
+		if kind == "delegVote" && len(props) > 0 && len(users) > 0 && len(g.W.Entities) > 0 {
+			p := props[rapid.IntRange(0, len(props)-1).Draw(t, "dvoteProp")]
+			a = users[int(p.ID)%len(users)]
+			acct = g.V.Account(a.Addr)
+			bal = &acct.General.Balance
+			to := g.W.Entities[int(p.ID)%len(g.W.Entities)].Address()
+			dels, _ := g.V.St.DelegationsFor(g.V.ctx, a.Addr)
+			voted := false
+			if votes, err := g.V.Gov.Votes(g.V.ctx, p.ID); err == nil {
+				for _, v := range votes {
+					voted = voted || v.Voter == a.Addr
+				}
+			}
+			switch {
+			case dels[to] == nil || dels[to].Shares.IsZero():
+				amt := bal.Clone()
+				if rest := quantity.NewFromUint64(g.W.Spec.MinTransact + 2000); amt.Cmp(rest) > 0 {
+					_ = amt.Sub(rest)
+				}
+				if voted {
+					break // the script is over for this proposal
+				}
+				method, body, note, scripted = staking.MethodAddEscrow, &staking.Escrow{Account: to, Amount: *amt}, "delegator script: delegate", true
+			case !voted:
+				method, body, note, scripted = governance.MethodCastVote, &governance.ProposalVote{ID: p.ID, Vote: governance.Vote(rapid.IntRange(1, 3).Draw(t, "dvote"))}, "by a delegator", true
+			default:
+				method, body, note, scripted = staking.MethodReclaimEscrow, &staking.ReclaimEscrow{Account: to, Shares: *dels[to].Shares.Clone()}, "whole delegation", true
+			}
+		}
+		if !scripted {
+			var cands []*Actor
+			for _, x := range g.Actors {
+				if x.Entity != nil && !AllowZeroVotingStake {
+					continue // (entities leaving with their whole self-delegation: precondition of SigZeroVotingStake)
+				}
+				if dels, err := g.V.St.DelegationsFor(g.V.ctx, x.Addr); err == nil && len(dels) > 0 {
+					cands = append(cands, x)
+				}
+			}
+			if len(cands) > 0 {
+				a = cands[rapid.IntRange(0, len(cands)-1).Draw(t, "delegator")]
+				acct = g.V.Account(a.Addr)
+				bal = &acct.General.Balance
+			}
+			dels, _ := g.V.St.DelegationsFor(g.V.ctx, a.Addr)
+			var tos []staking.Address
+			for to := range dels {
+				tos = append(tos, to)
+			}
+			sort.Slice(tos, func(i, j int) bool { return string(tos[i][:]) < string(tos[j][:]) })
+			if len(tos) > 0 {
+				to := tos[rapid.IntRange(0, len(tos)-1).Draw(t, "reclaimAllTo")]
+				method, body = staking.MethodReclaimEscrow, &staking.ReclaimEscrow{Account: to, Shares: *dels[to].Shares.Clone()}
+				note = "whole delegation"
+			} else {
+				method, body = staking.MethodReclaimEscrow, &staking.ReclaimEscrow{Account: g.pickAddr(t, "reclaimAny"), Shares: g.amount(t, bal, "shares")}
+			}
 		}
 	case "allow":
 		method, body = staking.MethodAllow, &staking.Allow{Beneficiary: g.pickAddr(t, "beneficiary"), Negative: rapid.Bool().Draw(t, "neg"), AmountChange: g.amount(t, bal, "amt")}
